@@ -42,6 +42,16 @@ def runActs (c : Val) : List PAct → Val × List Val
 /-- a request run alone: its holder is freshly allocated, hence `""`. -/
 def solo (as : List PAct) : List Val := (runActs 0 as).2
 
+/-- the values written by a sequence of accesses (`Clear` writes `""`). -/
+def writes : List PAct → List Val
+  | [] => []
+  | .read :: as => writes as
+  | .set v :: as => v :: writes as
+  | .clear :: as => 0 :: writes as
+
+/-- the last value written, `c` when nothing was written. -/
+def lastWrite (c : Val) (as : List PAct) : Val := (writes as).getLast?.getD c
+
 /-! ### the world: several requests, one heap of holders -/
 
 /-- a step of a request as far as the placeholder is concerned. -/
